@@ -734,6 +734,14 @@ func refChunklist(args []spec.V) outcome {
 		return ood("size not a non-negative whole number")
 	}
 	if sb.Sign() == 0 {
+		if len(l.Elems) == 0 {
+			// An empty list has no element to put into a chunk: for every
+			// positive size the result is the empty list of lists, and a chunk
+			// size that allows nothing does not create a chunk either (the
+			// special case for size 0, "a list made of the initial list",
+			// stands behind the empty-list case in the implementation).
+			return val(spec.V{T: spec.List(l.T), St: spec.Known}, "empty-list-size-zero")
+		}
 		return abstain("size zero")
 	}
 	inner := l.T
